@@ -85,7 +85,10 @@ Expr(id) ==
     [] id = ".name,c1" -> <<F(".name", "first"), F("c1", "first")>>
 
 IsNameKey(k) == k \in {".name", "/x", "/gomaxprocs"}
-AlphaRank(v) == CASE v = "" -> 0 [] v = "a" -> 1 [] v = "b" -> 2
+\* bytewise order of the configuration values (single lower-case letters; "" = missing sorts first)
+Letters == <<"a", "b", "c", "d", "e", "f", "g", "h", "i", "j", "k", "l", "m",
+            "n", "o", "p", "q", "r", "s", "t", "u", "v", "w", "x", "y", "z">>
+AlphaRank(v) == IF v = "" THEN 0 ELSE CHOOSE i \in 1..Len(Letters) : Letters[i] = v
 Pos(s, v) == CHOOSE i \in 1..Len(s) : s[i] = v
 
 \* file configuration: sequence of [k, v] in the order of Result.Config
@@ -262,11 +265,14 @@ Compute(A, C, FL) ==
     TR == MkSeq(nres, LAMBDA n : Tup(flatR, acc[n], ""))
     TC == MkSeq(nres, LAMBDA n : Tup(flatC, acc[n], ""))
     TX == MkSeq(nres, LAMBDA n : Tup(flatX, acc[n], ""))
-    KeyOf(m) == <<TT[m], TR[meas[m].ri], TC[meas[m].ri]>>
+    keyOf == MkSeq(nm, LAMBDA m : <<TT[m], TR[meas[m].ri], TC[meas[m].ri]>>)
+    KeyOf(m) == keyOf[m]
 
-    \* ---- declarative cells: the grouping
+    \* ---- declarative cells: the grouping (memberSeq: the fibres of KeyOf, tabulated once)
     cellKeys == {KeyOf(m) : m \in 1..nm}
-    Members(key) == {m \in 1..nm : KeyOf(m) = key}
+    keySeq == Dedupe(keyOf)
+    memberSeq == MkSeq(Len(keySeq), LAMBDA j : {m \in 1..nm : keyOf[m] = keySeq[j]})
+    Members(key) == memberSeq[Pos(keySeq, key)]
 
     \* ---- operational cells: Builder.Add
     opcells ==
